@@ -25,7 +25,14 @@ class MachineryError(Exception):
 
 def load_findings():
     with open(FINDINGS) as f:
-        return json.load(f)["findings"]
+        out = list(json.load(f)["findings"])
+    d = os.path.join(VERIF, "known_findings.d")
+    if os.path.isdir(d):
+        for fn in sorted(os.listdir(d)):
+            if fn.endswith(".json"):
+                with open(os.path.join(d, fn)) as f:
+                    out += json.load(f)["findings"]
+    return out
 
 
 class Ctx:
